@@ -1327,7 +1327,7 @@ func init() {
 		ID:    "C04.prealloc",
 		Props: []string{"C04", "C08"},
 		Doc:   "the count sanity checks of the WKB parser reject only what cannot be decoded: where an element count n is compared with the remaining input as n*K, K is a constant no larger than the smallest possible encoding of one element (ring: 4-byte count; child geometry: 5-byte header; here per parser routine from a table) or, for coordinate sequences, 8 bytes x the dimension — a larger per-element size rejects valid encodings (degenerate rings under NoValidate, empty members)",
-		Floor: 5,
+		Floor: 2,
 		Run:   runC04Prealloc,
 	})
 }
@@ -1468,6 +1468,43 @@ func runC04Prealloc(c *Ctx) {
 					kk = ky
 				}
 				c.Check(kk <= limit && kk > 0, bo.Pos(), fn, construct, fmt.Sprintf("%d bytes per element, not more than the smallest element (%d)", kk, limit), fmt.Sprintf("counts are rejected unless the input holds %d bytes per element, but an element can be as small as %d bytes: valid encodings (short or empty elements, kept under NoValidate) are refused as truncated", kk, limit))
+			case isNewHelper(f) && (paramOf(f, mul.X) >= 0 || paramOf(f, mul.Y) >= 0):
+				// the per-element size is an argument of a helper split off the parsers: judge each call
+				var pis []int
+				for _, v := range []ssa.Value{mul.X, mul.Y} {
+					if pi := paramOf(f, v); pi >= 0 {
+						pis = append(pis, pi)
+					}
+				}
+				sites := c.P.callSitesOf(f)
+				n += len(sites) - 1
+				bad := ""
+				for _, cs := range sites {
+					args := cs.Common().Args
+					lim, known := minElemSize[FuncName(cs.Parent())]
+					if !known {
+						lim = 4
+					}
+					okSite := false
+					for _, pi := range pis {
+						if pi >= len(args) {
+							continue
+						}
+						a := stripConv(args[pi])
+						if kk, ok := constInt(a); ok {
+							if kk > lim || kk <= 0 {
+								bad = fmt.Sprintf("%d bytes per element passed at %s, but an element there can be as small as %d bytes", kk, c.P.Pos(cs.Pos()), lim)
+							}
+							okSite = true
+						} else if isEightTimesDimension(a) {
+							okSite = true
+						}
+					}
+					if !okSite {
+						bad = "a computed per-element size passed at " + c.P.Pos(cs.Pos())
+					}
+				}
+				c.Check(bad == "" && len(sites) > 0, bo.Pos(), fn, construct, fmt.Sprintf("helper: all %d call sites pass a size not above the smallest element", len(sites)), bad+": valid encodings (short or empty elements, kept under NoValidate) are refused as truncated")
 			case isEightTimesDimension(mul.X) || isEightTimesDimension(mul.Y):
 				c.OK(bo.Pos(), fn, construct, "8 bytes x Dimension() per point: the exact size of a point")
 			default:
@@ -2558,4 +2595,190 @@ func callerLenGuards(cs ssa.Instruction, fa *ssa.FieldAddr) []bool {
 		}
 	}
 	return out
+}
+
+// ---------------------------------------------------------------------------
+// C20.siblings: thin wrappers agree across the geometry types
+// ---------------------------------------------------------------------------
+
+var sevenTypes = []string{"Point", "LineString", "Polygon", "MultiPoint", "MultiLineString", "MultiPolygon", "GeometryCollection"}
+
+// wrapperBehaviour interprets f with every call opaque and every Boolean query answered by each
+// combination (at most 3 queries); returns "answers -> results" lines with the type's own name replaced by T
+func wrapperBehaviour(c *Ctx, f *ssa.Function, typeName string) ([]string, string) {
+	var lines []string
+	nb := 0
+	for mask := 0; mask < 1<<uint(nb) || mask == 0; mask++ {
+		m := &Model{Num: map[string]float64{}, Bool: map[string]bool{}, Missing: map[string]bool{}}
+		it := &k4interp{p: c.P, m: m, mem: map[string]k4val{}}
+		var asked []string
+		it.answer = func(key string, isBool bool) (k4val, bool) {
+			if !isBool {
+				return k4val{}, false
+			}
+			for i, k := range asked {
+				if k == key {
+					return k4val{kind: 1, b: mask&(1<<uint(i)) != 0}, true
+				}
+			}
+			asked = append(asked, key)
+			return k4val{kind: 1, b: mask&(1<<uint(len(asked)-1)) != 0}, true
+		}
+		args := []k4val{}
+		for i := range f.Params {
+			args = append(args, k4val{kind: 3, s: fmt.Sprintf("$%d", i)})
+		}
+		res, err := it.call(f, args, nil)
+		if err != nil {
+			return nil, fmt.Sprintf("%v %s", err, missingList(m))
+		}
+		if len(asked) > 3 {
+			return nil, "more than 3 Boolean queries"
+		}
+		if len(asked) > nb {
+			nb = len(asked)
+		}
+		var rs []string
+		for _, r := range res {
+			rs = append(rs, r.String())
+		}
+		var as []string
+		for i, k := range asked {
+			as = append(as, fmt.Sprintf("%s=%v", k, mask&(1<<uint(i)) != 0))
+		}
+		line := strings.Join(as, ",") + " -> " + strings.Join(rs, ", ") + " ; effects: " + strings.Join(it.effects, ";")
+		line = strings.ReplaceAll(line, "("+typeName+")", "(T)")
+		line = strings.ReplaceAll(line, "(*"+typeName+")", "(*T)")
+		lines = append(lines, line)
+		if mask+1 >= 1<<uint(nb) {
+			break
+		}
+	}
+	sort.Strings(lines)
+	return lines, ""
+}
+
+func dumpSiblings(c *Ctx, methods []string) {
+	for _, mn := range methods {
+		for _, tn := range sevenTypes {
+			f := c.P.Func("geom.(" + tn + ")." + mn)
+			if f == nil {
+				f = c.P.Func("geom.(*" + tn + ")." + mn)
+			}
+			if f == nil {
+				fmt.Printf("%s %s: absent\n", mn, tn)
+				continue
+			}
+			ls, u := wrapperBehaviour(c, f, tn)
+			if u != "" {
+				fmt.Printf("%s %s: UNDEC %s\n", mn, tn, trunc(u))
+				continue
+			}
+			fmt.Printf("%s %s: %s\n", mn, tn, strings.Join(ls, " || "))
+		}
+	}
+}
+
+type wrapperSpec struct {
+	method string
+	want   []string // normalised behaviour lines (answers -> results)
+	what   string
+}
+
+var wrapperInline = map[string]bool{"Force2D": true, "AsBinary": true, "AsText": true, "Value": true, "ConvexHull": true, "ForceCW": true, "ForceCCW": true, "Scan": true, "UnmarshalJSON": true, "SnapToGrid": true}
+
+func registerWrapperRule(id string, props []string, doc string, specs []wrapperSpec, floor int) {
+	register(&Rule{
+		ID:    id,
+		Props: props,
+		Doc:   doc,
+		Floor: floor,
+		Run: func(c *Ctx) {
+			n := 0
+			for _, sp := range specs {
+				for _, tn := range sevenTypes {
+					f := c.P.Func("geom.(" + tn + ")." + sp.method)
+					if f == nil {
+						f = c.P.Func("geom.(*" + tn + ")." + sp.method)
+					}
+					if f == nil {
+						continue
+					}
+					n++
+					ls, u := wrapperBehaviourInl(c, f, tn)
+					fn := FuncName(f)
+					if u != "" {
+						c.Undecided(f.Pos(), fn, "delegation", "cannot interpret the wrapper: "+trunc(u))
+						continue
+					}
+					got := strings.Join(ls, " || ")
+					want := strings.Join(sp.want, " || ")
+					c.Check(got == want, f.Pos(), fn, "delegation", sp.what, fmt.Sprintf("%s.%s should be %s, i.e. [%s] like its siblings on the other geometry types, but behaves as [%s]", tn, sp.method, sp.what, want, trunc(got)))
+				}
+			}
+			if n < floor {
+				c.Errorf("only %d wrapper methods found, expected >= %d", n, floor)
+			}
+		},
+	})
+}
+
+// wrapperBehaviourInl: as wrapperBehaviour, with the sibling wrappers themselves (and new helpers) inlined, so that
+// Value() written as AsBinary() or as AppendWKB(nil) reads the same
+func wrapperBehaviourInl(c *Ctx, f *ssa.Function, typeName string) ([]string, string) {
+	old := k4WrapperInline
+	k4WrapperInline = func(g *ssa.Function) bool {
+		if g == f || g.Signature.Recv() == nil {
+			return false
+		}
+		rn := namedName(g.Signature.Recv().Type())
+		return rn == typeName && wrapperInline[g.Name()]
+	}
+	defer func() { k4WrapperInline = old }()
+	return wrapperBehaviour(c, f, typeName)
+}
+
+var k4WrapperInline func(g *ssa.Function) bool
+
+func init() {
+	nores := " ; effects: "
+	registerWrapperRule("C04.wrappers", []string{"C04"},
+		"the WKB convenience methods of all seven geometry types are the thin wrappers they are documented to be (each interpreted symbolically, sibling wrappers inlined): AsBinary() = AppendWKB(nil); Value() = (AsBinary(), nil); Scan(src) = scanAsType(src, receiver) — the same on every type",
+		[]wrapperSpec{
+			{"AsBinary", []string{" -> geom.(T).AppendWKB($0,nil)" + nores}, "AppendWKB(nil)"},
+			{"Value", []string{" -> geom.(T).AppendWKB($0,nil), nil" + nores}, "(AppendWKB(nil), nil)"},
+			{"Scan", []string{" -> geom.scanAsType($1,$0)" + nores}, "scanAsType(src, receiver)"},
+		}, 21)
+	registerWrapperRule("C05.wrappers", []string{"C05"},
+		"AsText() of all seven geometry types is string(AppendWKT(nil)) (interpreted symbolically)",
+		[]wrapperSpec{{"AsText", []string{" -> geom.(T).AppendWKT($0,nil)" + nores}, "AppendWKT(nil)"}}, 7)
+	registerWrapperRule("C06.wrappers", []string{"C06"},
+		"UnmarshalJSON of all seven geometry types is unmarshalGeoJSONAsType(data, receiver) (interpreted symbolically)",
+		[]wrapperSpec{{"UnmarshalJSON", []string{" -> geom.unmarshalGeoJSONAsType($1,$0)" + nores}, "unmarshalGeoJSONAsType(data, receiver)"}}, 7)
+	registerWrapperRule("C13.wrappers", []string{"C13"},
+		"ConvexHull() of all seven geometry types is convexHull(receiver.AsGeometry()) (interpreted symbolically)",
+		[]wrapperSpec{{"ConvexHull", []string{" -> geom.convexHull(geom.(T).AsGeometry($0))" + nores}, "convexHull(AsGeometry())"}}, 7)
+	registerWrapperRule("C16.wrappers", []string{"C16", "C12"},
+		"Force2D() of all seven geometry types is ForceCoordinatesType(DimXY), and SnapToGrid(dp) is TransformXY(snapToGridXY(dp)) (interpreted symbolically) — so the coordinate-type and carry-along guarantees established for ForceCoordinatesType and TransformXY hold for them",
+		[]wrapperSpec{
+			{"Force2D", []string{" -> geom.(T).ForceCoordinatesType($0,0)" + nores}, "ForceCoordinatesType(DimXY)"},
+			{"SnapToGrid", []string{" -> geom.(T).TransformXY($0,geom.snapToGridXY($1))" + nores}, "TransformXY(snapToGridXY(dp))"},
+		}, 14)
+	registerWrapperRule("C14.wrappers", []string{"C14", "C16", "C12"},
+		"ForceCW / ForceCCW of Polygon, MultiPolygon and GeometryCollection (interpreted symbolically under both answers of the orientation test): the receiver itself when IsCW() (resp. IsCCW()) already holds, otherwise forceOrientation(true) (resp. false) — the direction flag matches the method on every type",
+		[]wrapperSpec{
+			{"ForceCW", []string{"geom.(T).IsCW($0)=false -> geom.(T).forceOrientation($0,true)" + nores, "geom.(T).IsCW($0)=true -> $0" + nores}, "receiver if IsCW() else forceOrientation(true)"},
+			{"ForceCCW", []string{"geom.(T).IsCCW($0)=false -> geom.(T).forceOrientation($0,false)" + nores, "geom.(T).IsCCW($0)=true -> $0" + nores}, "receiver if IsCCW() else forceOrientation(false)"},
+		}, 6)
+}
+
+// paramOf: index of the parameter of f that v (through conversions) is, or -1
+func paramOf(f *ssa.Function, v ssa.Value) int {
+	v = stripConv(v)
+	for i, p := range f.Params {
+		if ssa.Value(p) == v {
+			return i
+		}
+	}
+	return -1
 }
